@@ -127,6 +127,34 @@ def run(ctx):
                         for i in (0, 1):
                             if set(L["elem_key"]) <= calls[i] and prm in reads(sides[1 - i]) and not called_names(sides[1 - i]):
                                 pred_ok = True
+        bs = [c for c in look.calls() if callee_name(c) in ("std::lower_bound", "std::upper_bound", "std::binary_search", "std::equal_range")]
+        if bs:
+            # third idiom: binary search — sound only if every mutation keeps the vector ordered by the key
+            sorted_ok = True
+            why_s = ""
+            for f2 in fb.all_functions():
+                if f2.rec != L["cls"]:
+                    continue
+                for d2, kind2, n2 in writes_of(f2):
+                    if d2 != vec or not (isinstance(n2, dict) and n2.get("k") == "call" and strip_all_casts(n2.get("obj", {})).get("field") == vec):
+                        continue
+                    if kind2 in ("call:push_back", "call:emplace_back", "call:pop_back", "call:swap"):
+                        sorted_ok = False
+                        why_s = "%s in %s" % (kind2.split(":")[-1], f2.name.split("::")[-1])
+                    if kind2 == "call:insert":
+                        pos = n2["args"][0] if n2.get("args") else {}
+                        if not (depends(f2, pos)[1] & {"std::lower_bound", "std::upper_bound"}):
+                            sorted_ok = False
+                            why_s = "insert at an unsearched position in %s" % f2.name.split("::")[-1]
+                for c2 in f2.calls("std::swap"):
+                    if vec in depends(f2, c2)[0]:
+                        sorted_ok = False
+                        why_s = "element swap in %s" % f2.name.split("::")[-1]
+            res.check(sorted_ok, "C16-R5", "%s:lookup" % short, look.loc, "binary search over a vector every mutation keeps ordered",
+                      "%s searches %s with %s, but %s does not keep the vector ordered by id: present entries are missed and duplicated" %
+                      (look.name, vec.split("::")[-1], callee_name(bs[0]), why_s))
+            # the writer rules below assume the linear-search design
+            continue
         if not fi:
             # accepted second idiom: index loop `for (i = 0; i < v.size(); ++i) if (key(v[i]) == id) return i; return v.size();`
             ok2, why2 = index_loop_lookup(fb, look, vec, L)
